@@ -566,8 +566,8 @@ _ADD = {
     "C12": ([{"run": rules_effect.run_objects, "floor": 8, "ctx": {"records": ["mpt_reply_data", "reply_data", "mpt_reply_context", "reply_context"], "min_functions": 5}, "use_anchor_files": True},
              {"run": rules_reply.run_flextail, "floor": 1, "use_anchor_files": True}],
             " ERRFX on every function of the anchor files that takes a reply_data / reply_context: no store to it on a path that refuses. FLEXTAIL: where the tail of an object that ends in the 4-byte id array is computed as capacity minus a sizeof, the sizeof is not larger than that array."),
-    "C15": ([{"run": rules_ref.run_raisetest, "floor": 40}, {"run": rules_traits.run_finibound, "floor": 5}, {"run": rules_ref.run_addreffail, "floor": 10}, {"run": rules_traits.run_finimatch, "floor": 1}, {"run": rules_traits.run_finifirst, "floor": 5}],
-            " ADDREFFAIL: from the edge on which an addref slot call answered non-zero every path to a refusal passes unref of that object, a store of it into memory or a call that is handed it. FINIMATCH / FINIFIRST (see C05): generic assignment into typed slots releases exactly the old referents of the rewritten range. RAISETEST: the answer of every addref slot call / mpt_refcount_raise (new count, 0 on failure) is decided by a zero test on the full-width value: no `< 0` test, no copy into a narrower variable. FINIBOUND as for C05."),
+    "C15": ([{"run": rules_ref.run_raisetest, "floor": 40}, {"run": rules_traits.run_finibound, "floor": 5}, {"run": rules_ref.run_addreffail, "floor": 10}, {"run": rules_ref.run_ownedref, "floor": 8}, {"run": rules_traits.run_finimatch, "floor": 1}, {"run": rules_traits.run_finifirst, "floor": 5}],
+            " OWNEDREF (see C14). ADDREFFAIL: from the edge on which an addref slot call answered non-zero every path to a refusal passes unref of that object, a store of it into memory or a call that is handed it. FINIMATCH / FINIFIRST (see C05): generic assignment into typed slots releases exactly the old referents of the rewritten range. RAISETEST: the answer of every addref slot call / mpt_refcount_raise (new count, 0 on failure) is decided by a zero test on the full-width value: no `< 0` test, no copy into a narrower variable. FINIBOUND as for C05."),
     "C16": ([{"run": rules_ident.run_initlive, "floor": 4}],
             " INITLIVE: mpt_identifier_init() is applied only in constructors, in type_traits init operations, to locals, or to memory allocated by the caller: never to `*this` of another member function or to an object handed in."),
     "C17": ([{"run": rules_path.run_fraglocate, "floor": 1, "use_anchor_files": True}, {"run": rules_path.run_fragadopt, "floor": 3, "use_anchor_files": True}],
@@ -576,12 +576,18 @@ _ADD = {
             " DERIVEDFIELD: a pointer member that is computed from an integer member of the same object and read by a function that does not compute it is stored again (or recomputed by a callee handed the object) in every function that stores the integer member. PARKRESTORE: typestate with trace partitioning over the parked-byte marker of the text iterator: the marker is dropped only after the parked byte was put back or the marker was tested null, and no callee is handed the text through the marker while a byte is parked. TYPEMAP (see C06) for the id -> size switch of mpt_iterator_consume."),
     "C03": ([{"run": rules_lin.run_linbounds, "floor": 95, "ctx": {"files_of": "C13"}}],
             " LINBOUNDS over the queue files (see C13): the decoders' queue glue (mpt_queue_recv / mpt_queue_shift) relies on mpt_qpre, mpt_queue_crop and mpt_queue_data keeping the queue invariant and changing the stored length by exactly the requested amount (LENSPEC)."),
+    "C11": ([{"run": rules_event.run_notifyguard, "floor": 8}],
+            " NOTIFYGUARD: of the members of a handler slot only `cmd` is tested by the conditions that decide whether its end-of-life call `S.cmd(S.arg, 0)` is made."),
+    "C14": ([{"run": rules_ref.run_ownedref, "floor": 8}, {"run": rules_node.run_childkeep, "floor": 1}],
+            " OWNEDREF: a reference stored into a member of an object is not released again through the local on a path behind the store (the object's teardown releases it). CHILDKEEP: typestate with trace partitioning: a whole list is stored into `A->children` of a handed-in node only where the old list was tested empty, saved or cleared on that path."),
     "C13": ([], " LENSPEC (LINBOUNDS exits): a successful pop / shift / crop lowers the stored length by exactly the requested amount, push / unshift raise it by it, get leaves it."),
     "C07": ([], " UNSIGNEDTEXT also demands that the pointer whose character is compared with '-' is not moved between that test and the parser call."),
     "C20": ([{"run": rules_layout.run_resetsame, "floor": 20}], " For the setters and their helpers a failure is excused as 'discovered after the store' only by a call that was handed the object or that allocates. RESETSAME: in the branch a setter takes for one property name the members stored on the no-source (reset) path overlap the members the value path writes or hands to its parser. ERRFX now also covers the helpers a setter hands a pointer into its object to (colour, attribute, string and position parsers): calls of writers whose result is discarded count as stores, and calls that only inspect their arguments (strlen, strncasecmp, isspace ..) do not excuse a store made before them."),
 }
 # option values are kept by the generic-info metatype: its size computation belongs to "values of any length"
 PROPS["C09"].setdefault("extra_scope_files", []).append("mptcore/misc/geninfo.c")
+PROPS["C08"]["rules"].append({"run": rules_node.run_childkeep, "floor": 1})
+PROPS["C08"]["explanation"] += " CHILDKEEP (see C14): mpt_parse_node attaches the parsed list only to an empty target or after the merge cleared the target."
 for _pid in ("C08", "C10"):
     PROPS[_pid]["rules"].append({"run": rules_cow.run_stalebuf, "floor": 40, "scope": "anchor-dirs"})
     PROPS[_pid]["explanation"] += " STALEBUF (see C04) over the path functions: a byte pointer computed from an array-backed path buffer is not used after a call that may replace that buffer."
